@@ -106,6 +106,18 @@ class ReachingDefs(object):
                             return a.value, i
         return None
 
+    def tuple_origin(self, n, e):
+        """Follow local copies of e back to an unpacking assignment ``a, b = <expr>``: (expr, index, def node) or None."""
+        e, n = self.origin(n, e)
+        if isinstance(e, ast.Name):
+            ds = self.defs_at(n, e.id)
+            if len(ds) == 1:
+                d = next(iter(ds))
+                td = self.tuple_def(d, e.id)
+                if td is not None:
+                    return td[0], td[1], d
+        return None
+
     def origin(self, n, e, depth=8):
         """Follow single-definition local copies: returns (expr, node) of the defining expression."""
         while depth > 0 and isinstance(e, ast.Name):
